@@ -153,6 +153,7 @@ func main() {
 	var wg sync.WaitGroup
 	var mu sync.Mutex
 	coverDone := map[string]bool{}
+	failedOf := map[string]int{}
 	for i := 0; i < *jobs; i++ {
 		wg.Add(1)
 		go func() {
@@ -183,6 +184,14 @@ func main() {
 				if o.effort > tmo {
 					tmo = o.effort
 				}
+				// once a function has eight undischarged obligations it is a failed function whatever the rest says:
+				// the remaining ones get the first tier only (keeps a check on a broken tree from taking half an hour)
+				mu.Lock()
+				nf := failedOf[o.Func]
+				mu.Unlock()
+				if nf >= 8 && tmo > 3 {
+					tmo = 3
+				}
 				if o.quickOnly && tmo > 3 {
 					tmo = 3
 				}
@@ -203,6 +212,11 @@ func main() {
 				default:
 					o.Status = "undecided(" + best.Status + ")"
 					o.Detail = firstLines(best.Raw, 3)
+				}
+				if o.Status != "discharged" {
+					mu.Lock()
+					failedOf[o.Func]++
+					mu.Unlock()
 				}
 			}
 		}()
